@@ -263,7 +263,17 @@ def include_tree_cases(dangling=None, unknown=None):
             for c in cmds:
                 fo = sorted(quote_ok(c["file"].rsplit("/", 1)[0]))
                 if fo and draw(st.integers(0, 5)) == 0:
-                    c["forced"] = [draw(st.sampled_from(fo))]
+                    # one or two forced includes, possibly the same header twice (include-once must hold)
+                    c["forced"] = [draw(st.sampled_from(fo)) for _ in range(draw(st.sampled_from([1, 1, 2])))]
+        # a system header that silently redefines a macro the program (or -D) already defined
+        if draw(st.integers(0, 3)) == 0:
+            nm = draw(st.sampled_from(NAMES))
+            tree["sysre/redef.h"] = {"items": [["define", nm, draw(st.sampled_from(["5", "0", "1"]))], ["code", 1]], "style": [0]}
+            m = tree["cb/src/main.c"]
+            m["items"] = m["items"][:1] + [["include", "angle", "redef.h"], ["chain", [["if", ["cmp", nm, "==", 5], [["code", 1]]]], [["code", 1]]]] + m["items"][1:]
+            for cmds in plats.values():
+                for c in cmds:
+                    c["dirs"] = c["dirs"] + [["isystem", "sysre"]]
         return {"tree": tree, "platforms": plats, "cbroot": CB, "via_argparser": True, "plain": draw(st.sampled_from([False, True]))}
 
     return case()
